@@ -22,6 +22,9 @@ import (
 	"testing"
 	"unsafe"
 
+	stderrors "errors"
+
+	"github.com/cilium/ebpf"
 	"github.com/daeuniverse/dae/common/consts"
 	"github.com/daeuniverse/dae/component/outbound/dialer"
 )
@@ -42,6 +45,9 @@ type c03In struct {
 	Conn   [][2]string `json:"conn"`
 	Hand   [][2]string `json:"hand"`
 	Flows  []c03Flow   `json:"flows"`
+	// Recov: earlier redirected packets whose handling by dae was deferred; dae recovers their routing
+	// result now, in this order, before the packet of Flows, on ONE instance of the maps.
+	Recov []c03Flow `json:"recov"`
 	Now    uint64      `json:"now"`
 }
 
@@ -162,6 +168,39 @@ func TestVerifC03(t *testing.T) {
 			hand[kv[0]] = e
 			handOut = append(handOut, map[string]any{"k": kv[0], "last": e.LastSeenNs, "res": c03ResOf(e.Result)})
 		}
+		// dae's recoveries through the lifted text of controlPlaneCore.RetrieveRoutingResult /
+		// retrieveEmbeddedRoutingResult / retrieveRoutingHandoffResult (zz_verif_c03_lifted_test.go, generated by
+		// tools/c03.py from control/utils.go with only the receiver type, the map type and the clock replaced),
+		// all on one instance of the two maps: what one recovery does to the maps is seen by the next.
+		core := &c03Core{}
+		core.bpf.o = &c03Objs{ConnStateMap: &c03Map{m: map[string][]byte{}}, RoutingHandoffMap: &c03Map{m: map[string][]byte{}}}
+		for _, kv := range in.Conn {
+			b, _ := hex.DecodeString(kv[1])
+			core.bpf.o.ConnStateMap.m[kv[0]] = b
+		}
+		for _, kv := range in.Hand {
+			b, _ := hex.DecodeString(kv[1])
+			core.bpf.o.RoutingHandoffMap.m[kv[0]] = b
+		}
+		c03Clock = in.Now
+		realOut := []map[string]any{}
+		for _, f := range append(append([]c03Flow{}, in.Recov...), in.Flows...) {
+			src, err1 := c03AddrPort(f.Sip, f.Sport)
+			dst, err2 := c03AddrPort(f.Dip, f.Dport)
+			if err1 != nil || err2 != nil {
+				return map[string]any{"error": "bad flow address"}
+			}
+			key := bpfTuplesKeyFromAddrPorts(src, dst, f.Proto)
+			kh := hex.EncodeToString((*[unsafe.Sizeof(key)]byte)(unsafe.Pointer(&key))[:])
+			rr, err := core.RetrieveRoutingResult(src, dst, f.Proto)
+			var res *c03Res
+			if err == nil && rr != nil {
+				res = c03ResOf(*rr)
+			} else if err != nil && !stderrors.Is(err, ebpf.ErrKeyNotExist) {
+				return map[string]any{"error": "RetrieveRoutingResult: " + err.Error()}
+			}
+			realOut = append(realOut, map[string]any{"key": kh, "res": res})
+		}
 		flows := []map[string]any{}
 		for _, f := range in.Flows {
 			src, err1 := c03AddrPort(f.Sip, f.Sport)
@@ -183,6 +222,71 @@ func TestVerifC03(t *testing.T) {
 			}
 			flows = append(flows, map[string]any{"key": kh, "res": res})
 		}
-		return map[string]any{"conn": connOut, "hand": handOut, "flows": flows}
+		return map[string]any{"conn": connOut, "hand": handOut, "flows": flows, "real": realOut}
 	})
 }
+
+// ---- map and clock stand-ins the lifted functions run on ----
+var c03Clock uint64
+
+func c03MonotonicNowNano() (uint64, error) { return c03Clock, nil }
+
+type c03Map struct{ m map[string][]byte }
+
+func c03KeyHex(key any) (string, error) {
+	k, ok := key.(*bpfTuplesKey)
+	if !ok {
+		return "", fmt.Errorf("c03Map: unexpected key type %T", key)
+	}
+	return hex.EncodeToString((*[unsafe.Sizeof(*k)]byte)(unsafe.Pointer(k))[:]), nil
+}
+
+func (m *c03Map) Lookup(key any, out any) error {
+	kh, err := c03KeyHex(key)
+	if err != nil {
+		return err
+	}
+	v, ok := m.m[kh]
+	if !ok {
+		return ebpf.ErrKeyNotExist
+	}
+	switch o := out.(type) {
+	case *bpfConnState:
+		cs, err := c03DecodeConn(v)
+		if err != nil {
+			return err
+		}
+		*o = cs
+	case *bpfRoutingHandoffEntry:
+		e, err := c03DecodeHand(v)
+		if err != nil {
+			return err
+		}
+		*o = e
+	default:
+		return fmt.Errorf("c03Map: unexpected value type %T", out)
+	}
+	return nil
+}
+
+func (m *c03Map) Delete(key any) error {
+	kh, err := c03KeyHex(key)
+	if err != nil {
+		return err
+	}
+	if _, ok := m.m[kh]; !ok {
+		return ebpf.ErrKeyNotExist
+	}
+	delete(m.m, kh)
+	return nil
+}
+
+type c03Objs struct {
+	ConnStateMap      *c03Map
+	RoutingHandoffMap *c03Map
+}
+type c03Holder struct{ o *c03Objs }
+
+func (h *c03Holder) Load() *c03Objs { return h.o }
+
+type c03Core struct{ bpf c03Holder }
